@@ -29,6 +29,8 @@ R2 (K3) write-group pairing in the functions that start *and* end a write group 
 R3 (K2) StreamSink.insert_stream: commit_write_group is unreachable while missing_keys is truthy (suspend and return the
    keys instead); missing_keys is the result of insert_stream_without_locking, which unions
    get_missing_parent_inventories() with every versioned file's get_missing_compression_parent_keys() and returns it.
+R6 fetch.py:_parent_keys_for_root_version leaves a parent out of the synthesised root text's parents only for
+   NULL_REVISION or after a lookup failed (no `continue` keyed on the map's None marker). Added from a third-round seed.
 Does not decide: completeness of search_missing_revision_ids, CHK filtering, testament equality.
 """
 ENDS = {"commit_write_group", "suspend_write_group", "abort_write_group"}
@@ -198,7 +200,27 @@ def run(ctx):
     same = [n for n in ast.walk(ffetch) if isinstance(n, ast.If) and "has_same_location" in norm(n.test)]
     ctx.check("R5-same-fallbacks-compares-lengths", "breezy/repository.py:Repository.fetch", len(same) >= 1 and all("_has_same_fallbacks" in norm(n.test) for n in same), "Repository.fetch takes the same-location shortcut only when the fallbacks are the same too")
 
+    # ---- R6: per-file history of the synthesised root — a parent is left out only when it cannot be loaded ----------
+    # _parent_keys_for_root_version (used when non-rich-root history is fetched into a rich-root format): the map value
+    # None means "outside the fetch set, look it up", not "ghost".  The loop over the revision's parents skips a parent
+    # with `continue` only for NULL_REVISION; every other omission is the outcome of a revision_tree()/id lookup that
+    # raised.
+    FT = "breezy/bzr/fetch.py"
+    fpk = repo.func(FT, "_parent_keys_for_root_version")
+    wpk = f"{FT}:_parent_keys_for_root_version"
+    loops6 = [l_ for l_ in walk_own(fpk) if isinstance(l_, ast.For) and any(call_attr(c) == "revision_tree" for c in calls_in(l_))]
+    ctx.require(len(loops6) == 1, f"{wpk}: the loop over the revision's parents was not found")
+    bad6 = []
+    for n in ast.walk(loops6[0]):
+        if isinstance(n, (ast.Continue, ast.Break)):
+            owners = [i_ for i_ in ast.walk(loops6[0]) if isinstance(i_, ast.If) and any(x is n for b_ in (i_.body,) for s_ in b_ for x in ast.walk(s_))]
+            if not any("NULL_REVISION" in norm(i_.test) for i_ in owners):
+                bad6.append(f"L{n.lineno}:{type(n).__name__.lower()} under {[norm(i_.test)[:40] for i_ in owners][-1:]}")
+    ctx.check("R6-root-parent-dropped-only-when-unloadable", wpk, not bad6, "a parent contributes no root-text parent only via NULL_REVISION or a failed lookup", construct="; ".join(bad6), message=f"_parent_keys_for_root_version skips a parent without looking it up ({bad6}): for a parent outside the fetch set that is seen a second time (two fetched siblings of a revision the target already has) the synthesised root text loses its parent — the per-file graph differs from a one-shot fetch and check() reports inconsistent parents")
+
+
 MUTANTS = [
+    Mutant("None in the root-id map taken for a ghost", "breezy/bzr/fetch.py", "            parent_ids.append(parent_id)\n        else:\n            # root_id may be in the parent anyway.\n", "            parent_ids.append(parent_id)\n        elif parent_root_id is None:\n            continue\n        else:\n            # root_id may be in the parent anyway.\n", expect="R6-root-parent-dropped-only-when-unloadable"),
     Mutant("fallback lists compared with zip only", "breezy/repository.py", "        if len(my_fb) != len(other_fb):\n            return False\n", "", expect="R5-same-fallbacks-compares-lengths"),
     Mutant("source yields a kind the sink does not know", VF, "                raise AssertionError(f\"kaboom! {substream_type}\")", "                raise AssertionError(f\"kaboom! {substream_type}\")\n        if False:\n            yield (\"texts2\", None)", neutral=True, note="not in a StreamSource"),
     Mutant("sink loses the signatures arm", VF, "            elif substream_type == \"signatures\":\n                self.target_repo.signatures.insert_record_stream(substream)\n", "", expect="R1-kinds-dispatched"),
